@@ -190,6 +190,55 @@ USER_FEA = [
 ]
 
 
+def indic_level(ctx):
+    """a hand-written feature WITHOUT the marker is left alone also for the Indic mark features: a user abvm (or blwm, mark,
+    mkmk) block is not duplicated, the ones the user did not write are generated"""
+    import ufo2ft
+    from fontTools.feaLib.parser import Parser
+    from fontTools.feaLib import ast
+    rng = ctx.subrng("indic")
+    glyphs = [
+        {"name": "ka-kannada", "unicodes": [0xC95], "width": 600, "anchors": [("top", Fr(290), Fr(550)), ("bottom", Fr(290), Fr(0))]},
+        {"name": "ga-kannada", "unicodes": [0xC97], "width": 600, "anchors": [("top", Fr(300), Fr(560)), ("bottom", Fr(280), Fr(-5))]},
+        {"name": "candrabindu-kannada", "unicodes": [0xC81], "width": 0, "anchors": [("_top", Fr(0), Fr(547)), ("top", Fr(0), Fr(700))]},
+        {"name": "nukta-kannada", "unicodes": [0xCBC], "width": 0, "anchors": [("_bottom", Fr(0), Fr(0)), ("bottom", Fr(0), Fr(-150))]},
+        {"name": "a", "unicodes": [0x61], "width": 500, "anchors": [("top", Fr(250), Fr(500))]},
+        {"name": "acutecomb", "unicodes": [0x301], "width": 0, "anchors": [("_top", Fr(0), Fr(480))]},
+    ]
+    for g in glyphs:
+        g["contours"] = []
+    gn = [g["name"] for g in glyphs]
+    head = "languagesystem DFLT dflt;\nlanguagesystem knda dflt;\nlanguagesystem knd2 dflt;\nlanguagesystem latn dflt;\n"
+    head += "markClass candrabindu-kannada <anchor 0 500> @MY_TOP;\nmarkClass nukta-kannada <anchor 0 0> @MY_BOT;\n"
+    hand = {"abvm": "feature abvm {\n    pos base ka-kannada <anchor 300 600> mark @MY_TOP;\n} abvm;\n",
+            "blwm": "feature blwm {\n    pos base ka-kannada <anchor 300 -10> mark @MY_BOT;\n} blwm;\n",
+            "mark": "feature mark {\n    pos base a <anchor 250 510> mark @MY_TOP;\n} mark;\n",
+            "mkmk": "feature mkmk {\n    pos mark candrabindu-kannada <anchor 0 710> mark @MY_TOP;\n} mkmk;\n"}
+    combos = [("abvm",), ("blwm",), ("mark",), ("mkmk",), ("abvm", "mark"), ("blwm", "mkmk"), (), ("abvm", "blwm")]
+    for i in range(ctx.budget(8, 16)):
+        written = combos[i % len(combos)]
+        fea = head + "".join(hand[t] for t in written)
+        desc = {"glyphs": glyphs, "features": fea, "kerning": {}}
+        case = {"features": fea, "hand_written": list(written), "level": "Indic mark features"}
+        ctx.count(); ctx.klass("indic: user wrote " + ("+".join(written) or "nothing")); ctx.nontriv(("indic", i, ctx.scale))
+        try:
+            dbg = io.StringIO()
+            ufo2ft.compileTTF(build_font(desc, ["ufoLib2", "defcon"][i % 2]), useProductionNames=False, debugFeatureFile=dbg)
+        except Exception as e:
+            ctx.spec_failure(case, "compile raised %s: %s\n%s" % (type(e).__name__, e, traceback.format_exc()[-1000:]))
+            continue
+        final = Parser(io.StringIO(dbg.getvalue()), glyphNames=gn).parse()
+        counts = {}
+        for st in final.statements:
+            if isinstance(st, ast.FeatureBlock):
+                counts[st.name] = counts.get(st.name, 0) + 1
+        for t in ("abvm", "blwm", "mark", "mkmk"):
+            if t in written and counts.get(t, 0) != 1:
+                ctx.spec_failure(dict(case, feature=t, blocks=counts), "the user's %s feature (no marker) was duplicated: %d blocks in the compiled source" % (t, counts.get(t, 0)))
+            if t not in written and counts.get(t, 0) > 1:
+                ctx.spec_failure(dict(case, feature=t, blocks=counts), "%s was generated %d times" % (t, counts.get(t, 0)))
+
+
 def compile_level(ctx):
     import ufo2ft
     from fontTools.ttLib import TTFont
@@ -301,6 +350,7 @@ def compile_level(ctx):
                     ctx.spec_failure(case, "marker below the hand-written rules but generated kern comes first")
                 if after and not auto[0] < after[0]:
                     ctx.spec_failure(case, "marker in the middle but the rules after it precede the generated kern")
+    indic_level(ctx)
     # GSUB writers run first
     from ufo2ft.featureCompiler import FeatureCompiler
     from ufo2ft.featureWriters import KernFeatureWriter, MarkFeatureWriter, BaseFeatureWriter
